@@ -178,14 +178,21 @@ class ManageSieveConnection:
             match = self._literal_plus.search(data)
             if not match:
                 break
-            literal_length = int(match.group(1))
+            try:
+                literal_length = int(match.group(1))
+            except ValueError:
+                break  # left to the parser to refuse
             data += await self.reader.readexactly(literal_length)
         self._print('%d -->| %s', data)
         return memoryview(data)
 
     async def _read_command(self) -> Command:
         cmd_buf = await self._read_data()
-        cmd, _ = Command.parse(cmd_buf, self.params)
+        try:
+            cmd, _ = Command.parse(cmd_buf, self.params)
+        except (RecursionError, ValueError) as exc:
+            # nested too deeply, or a number with too many digits
+            raise NotParseable(cmd_buf) from exc
         return cmd
 
     async def _write_response(self, resp: Response) -> None:
